@@ -2,6 +2,7 @@ package main
 
 import (
 	"fmt"
+	"go/ast"
 	"go/token"
 	"go/types"
 	"sort"
@@ -47,6 +48,9 @@ type loopInfo struct {
 	backs   []*ssa.BasicBlock // sources of back edges
 	writes  map[string]bool   // heap families written inside (from discovery pass); "*" = all
 	lc      *LoopContract
+	syn     ast.Node // loop statement (see loopSyntax)
+	synDone bool
+	region  map[*ssa.BasicBlock]bool
 }
 
 type Enc struct {
